@@ -192,7 +192,8 @@ def pv_dec(tok):
         return tok[1:]
     if tok.startswith("A[") and tok.endswith("]"):
         body = tok[2:-1]
-        return np.array([pv_dec(x) for x in body.split(";")] if body else [], dtype=int)
+        items = [pv_dec(x) for x in body.split(";")] if body else []
+        return np.array(items, dtype=bool if items and all(isinstance(x, bool) for x in items) else int)
     if tok.startswith("M[") and tok.endswith("]"):
         body = tok[2:-1]
         return np.array([[pv_dec(x) for x in r.split(";")] for r in body.split("|")] if body else [], dtype=int)
